@@ -603,14 +603,15 @@ func PostgresTable(b Base) bool {
 }
 
 // LeafFnsAgree: plain values, wildcard patterns and regular expressions are rendered by the
-// same function.  (The JSON decoder re-infers the kind of a string leaf from its text, so a
+// same function, the leaf template `literal` (the only place that refuses NUL bytes and invalid
+// UTF-8 in inline text).  (The JSON decoder re-infers the kind of a string leaf from its text, so a
 // decoded tree may hold a WILD where the original held a LITERAL: C12 requires both to
 // render to identical SQL.)
 func LeafFnsAgree(b Base) bool {
 	l, okl := b.RenderFNs[expr.Literal]
 	w, okw := b.RenderFNs[expr.Wild]
 	r, okr := b.RenderFNs[expr.Regexp]
-	return okl && okw && okr && verifspec.SameFn(l, w) && verifspec.SameFn(w, r)
+	return okl && okw && okr && verifspec.SameFn(l, literal) && verifspec.SameFn(l, w) && verifspec.SameFn(w, r)
 }
 
 //@ func NewPostgresDriver
